@@ -386,6 +386,7 @@ func run(c *vh.Ctx) {
 
 	runGenerators(c)
 	runQUIC(c, n)
+	runQUICBoundaries(c)
 
 	for _, p := range parrots {
 		runParrotID(c, p, n)
